@@ -224,6 +224,12 @@ impl Runner {
       "name": self.sc.name,
       "chain": self.sc.chain,
       "jubilee": jubilee,
+      "firstInscription": match self.sc.chain.as_str() {
+        "signet" => 112402,
+        "mainnet" => 767430,
+        "testnet" => 2413343,
+        _ => 0,
+      },
       "subsidy": SUBSIDY_UNITS,
       "flags": flags,
       "events": self.opts.events,
